@@ -143,7 +143,7 @@ def run(ctx):
 
 MANIFEST = {
     "category": "other",
-    "technique": "atomic check-then-act rule over resolved callee summaries (Load / FetchAdd / RMW) + decision table of Drop",
+    "technique": "atomic check-then-act rule over resolved callee summaries (Load / FetchAdd / RMW) + decision table of Drop; compare_exchange must retry on contention",
     "text": "Static: the race window between has_subscriptions() and clone() is decided from the MIR of every caller, for all schedules at once; Drop's table decides when Unsubscribe is sent. Decides the handle-counting structure; the gossip actor's reaction is not decided.",
     "note": "Trusted: rustc MIR, driver, rule engine; SeqCst atomics semantics.",
 }
